@@ -79,6 +79,7 @@ func propC18(w *World, r *Report, tier string) {
 		{"UEPolicyPart.MarshalBinary", "parseUEPolicyPart"},
 		{"UEPolicySectionManagementSubList.MarshalBinary", "parseUEPlcSublist"},
 		{"UEPolicySectionManagementSubResult.MarshalBinary", "parseUEPlcSubResult"},
+		{"Result.MarshalBinary", "parseResult"},
 		{"UEPolicySectionManagementList.MarshalBinary", "UEPolicySectionManagementList.UnmarshalBinary"},
 		{"UEPolicySectionManagementResult.MarshalBinary", "UEPolicySectionManagementResult.UnmarshalBinary"},
 	}
@@ -93,6 +94,7 @@ func propC18(w *World, r *Report, tier string) {
 	})
 	r.Expect("seq.all-items", 1)
 	checkUePolShapes(w, r)
+	checkUePolMessages(w, r)
 	checkPointerFieldWrites(w, r, "uePolicyContainer")
 	checkFreshDecodeTargets(w, r, "uePolicyContainer", "UePolDeliverySer.UePolDeliverySerDecode")
 	r.Expect("dec.fresh-target", 1)
@@ -435,4 +437,85 @@ func checkUePolShapes(w *World, r *Report) {
 		}
 	}
 	r.Expect("walk.uepol", 9)
+}
+
+// checkUePolMessages (msg.reencode): the three messages of the UE policy delivery service decoded
+// from their shortest wire form (symbolic PTI) and encoded again give the octets that were decoded:
+// the header octets (PTI, message type) reach the body that the encoder writes them from.
+func checkUePolMessages(w *World, r *Report) {
+	fd := w.LookupFunc("uePolicyContainer", "UePolDeliverySer.UePolDeliverySerDecode")
+	fe := w.LookupFunc("uePolicyContainer", "UePolDeliverySer.UePolDeliverySerEncode")
+	if fd == nil || fe == nil {
+		r.Fail("anchor", "uePolicyContainer.UePolDeliverySer", "Decode/Encode", token.NoPos, "entry points not found", nil)
+		return
+	}
+	fname := FuncName(fd)
+	for _, m := range []struct {
+		name string
+		typ  uint64
+		tail []uint64
+	}{
+		{"MANAGE UE POLICY COMMAND", 1, []uint64{0x01, 0, 0}},
+		{"MANAGE UE POLICY COMPLETE", 2, nil},
+		{"MANAGE UE POLICY REJECT", 3, []uint64{0x02, 0, 0}},
+	} {
+		r.Site("msg.reencode")
+		it := NewInterp(w)
+		it.Fuel = 300000
+		it.UseInitValues = true
+		readerModels(it)
+		st := it.NewState()
+		seedIOErrors(it, st)
+		bo := it.NewObj("in", false)
+		st.mem[bo] = map[string]Value{}
+		in := []BV{it.SrcBV("pti", 8), it.constBV(m.typ, 8)}
+		for _, t := range m.tail {
+			in = append(in, it.constBV(t, 8))
+		}
+		for i, b := range in {
+			st.mem[bo][fmt.Sprintf("[%d]", i)] = b
+		}
+		ro, recv := it.SymbolicObj("msg")
+		st.mem[ro] = map[string]Value{}
+		zero := it.zeroValue(fd.Type().(*types.Signature).Recv().Type().(*types.Pointer).Elem())
+		if ag, ok := zero.(AggV); ok {
+			for k, v := range ag.Cells {
+				st.mem[ro][k] = v
+			}
+		}
+		res := it.Call(w.SSAFunc(fd), []Value{recv, SliceV{Obj: bo, Len: len(in)}}, st, 0)
+		good, why := true, ""
+		if len(it.Unsup) > 0 {
+			good, why = false, fmt.Sprintf("undecided (decode): %v", it.Unsup)
+		} else if n, ok := it.errNil(res); !ok || n != it.T.one {
+			good, why = false, "the shortest well-formed message is not accepted"
+		}
+		if good {
+			res2 := it.Call(w.SSAFunc(fe), []Value{recv}, st, 0)
+			tv, isT := res2.(TupleV)
+			switch {
+			case len(it.Unsup) > 0 || !isT || len(tv) != 2:
+				good, why = false, fmt.Sprintf("undecided (encode): %v", it.Unsup)
+			default:
+				if n, ok := it.errNil(tv[1]); !ok || n != it.T.one {
+					good, why = false, "the decoded message is not encoded without error"
+					break
+				}
+				out, okB := sliceBytes(it, st, tv[0])
+				if !okB {
+					good, why = false, "the encoded octets are not resolvable"
+					break
+				}
+				if ok, msg := sameOctets(it, m.name, out, in); !ok {
+					good, why = false, "encoding the decoded message does not give the octets that were decoded: "+msg
+				}
+			}
+		}
+		if good {
+			r.OK("msg.reencode")
+		} else {
+			r.Fail("msg.reencode", fname, m.name, fd.Pos(), why, nil)
+		}
+	}
+	r.Expect("msg.reencode", 3)
 }
